@@ -86,7 +86,8 @@ def design_desc(draw):
             if draw(BOOL):
                 mp = list(reversed(mp))
             sub["keeper"] = {"defines": kd, "map": mp}
-    return {"prog": prog, "doms": doms, "subs": subs, "port_targets": sorted(set(PICK(draw, targets) for _ in range(2)))}
+    return {"prog": prog, "doms": doms, "subs": subs, "port_targets": sorted(set(PICK(draw, targets) for _ in range(2))),
+            "port_form": draw(INT(0, 2))}
 
 
 def _known_renamer(part, case, mm):
@@ -141,6 +142,7 @@ def rtlil_body(ctx, batch):
         if any(s["anon"] for s in desc["subs"]): keys.append("rtlil:anonymous-submodule")
         if any(s["inst"] for s in desc["subs"]): keys.append("rtlil:instance-with-clocksignal")
         if any(s["mem"] for s in desc["subs"]): keys.append("rtlil:memory")
+        if desc.get("port_form"): keys.append("rtlil:ports-as-" + ["", "triples", "dict"][desc["port_form"]])
         if any(s.get("rawmem") for s in desc["subs"]): keys.append("rtlil:kept-memory-primitive")
         if any(s.get("rawmem") == 2 for s in desc["subs"]): keys.append("rtlil:kept-memory-primitive-under-enable-inserter")
         if any(s["inst"] and s.get("inst_kept") for s in desc["subs"]): keys.append("rtlil:component-returning-a-kept-instance")
@@ -390,7 +392,7 @@ def library_body(ctx, name):
         import difflib
         diff = [l for l in difflib.unified_diff(t1.splitlines(), t2.splitlines(), lineterm="", n=0)][:12]
         raise Mismatch("library-component-converted-twice-differs", component=name, first_differences=diff)
-    ctx.note(["library", name], True, "lib:component-converted-twice", evals=3)
+    ctx.note(["library", name], True, "lib:component-converted-twice", "rtlil:ports-as-triples", "rtlil:ports-as-dict", evals=3)
 
 
 def parts(tier):
@@ -407,5 +409,5 @@ def parts(tier):
 REQUIRED = ["rtlil:design", "rtlil:>=2-implicit-domains", "rtlil:name-clash", "rtlil:anonymous-submodule",
             "rtlil:instance-with-clocksignal", "rtlil:memory", "rtlil:renamer-around-kept-clock-domain",
             "rtlil:renamer-map-revisits-a-name", "rtlil:kept-memory-primitive", "rtlil:kept-memory-primitive-under-enable-inserter",
-            "rtlil:component-returning-a-kept-instance", "lib:component-converted-twice", "sim:history", "sim:generator-style-testbench", "sim:partial-run-before-reset",
+            "rtlil:component-returning-a-kept-instance", "lib:component-converted-twice", "rtlil:ports-as-triples", "rtlil:ports-as-dict", "sim:history", "sim:generator-style-testbench", "sim:partial-run-before-reset",
             "sim:with-processes", "sim:memory-written", "plan:icestorm", "plan:trellis", "plan:apicula"]
